@@ -18,9 +18,10 @@ HELD = "held"
 # runs: (family, mode, runner, n_quick, n_thorough, labels)
 PROPS = {
     "C01": dict(
-        corpus=True, runs=[("coll", "flat-nomerge", "flatrun", 320, 6000, 22), TREE + (160, 3000, 24)],
+        corpus=True, runs=[("coll", "flat-nomerge", "flatrun", 320, 6000, 22), TREE + (160, 3000, 24),
+                           ("conc", "", "concrun", 80, 2000, 0)],
         corr=STRUCT | READS, corr_held=True,
-        spec={"spec:gets", "spec:iter", "tspec:reads"}, spec_held=True,
+        spec={"spec:gets", "spec:iter", "tspec:reads", "spec:history", "spec:fresh-snapshot-behind-get"}, spec_held=True,
         rule="generated label sequences (batches of Set/Del with unique keys woven with merger ingest/swap/hand-over, "
              "persister begin/publish/fail, snapshots, close/reopen) over memory-only, map-backed and store-backed "
              "collections with sampled options; a case is non-trivial when at some observed step a key has operations "
@@ -50,7 +51,7 @@ PROPS = {
               ("coll", "nilmerge", "flatrun", 48, 800, 22), ("conc", "", "concrun", 100, 2000, 0)],
         corr=STRUCT | READS | {"model:cget", "tmodel:cget"}, corr_held=False,
         spec={"spec:cget", "spec:gets", "spec:iter", "tspec:reads", "tspec:cget", "spec:copied-value-not-intact",
-              "spec:nocopy-differs", "spec:fresh-snapshot-behind-get", "spec:history"}, spec_held=False,
+              "spec:nocopy-differs", "spec:skiplowerlevel-get-differs", "spec:fresh-snapshot-behind-get", "spec:history"}, spec_held=False,
         rule="every value a copying Get returns is retained (the slice itself) with a private copy and compared after every "
              "later label and after snapshot, collection and store are closed (reads that fault are caught); every Get is "
              "repeated with NoCopyValue; the operator returns its existing value uncopied for the operand '='; "
@@ -107,7 +108,7 @@ PROPS = {
         technique="Coq proof (prefix invariant a<=b<=d; close leaves a prefix; cycles) + lock-step correspondence with reopen labels",
     ),
     "C06": dict(
-        runs=[("fault", "", "faultrun", 160, 3000, 0)],
+        runs=[("fault", "", "faultrun", 320, 4000, 0)],
         corr={"model:unsurfaced-failure", "model:retry", "driver-error", "harness-error"}, corr_held=False,
         spec={"spec:fault-lost-or-corrupt", "spec:never-caught-up", "spec:reopen-after-faults"}, spec_held=False,
         rule="workloads of 3-5 rounds (append persists, leveled partial and forced full compactions, 1 or 512 buffer "
